@@ -43,7 +43,7 @@ def main():
         d = os.path.join(sd, name)
         meta = json.load(open(os.path.join(d, "meta.json")))
         pid = meta["property"]
-        sh(["git", "-C", SCRATCH, "checkout", "--", "."])
+        sh(["git", "-C", SCRATCH, "reset", "-q", "--hard"])
         sh(["git", "-C", SCRATCH, "clean", "-fdq"])
         rc, out = sh(["git", "-C", SCRATCH, "apply", "--3way", os.path.join(d, "patch.diff")])
         if rc:
@@ -73,7 +73,7 @@ def main():
             r["demo_on_changed"] = rc2
         results[name] = r
         print("%-28s %s %s %s" % (name, pid, r["status"], (r.get("quick") or r.get("thorough") or {}).get("detail", [""])[:1]))
-        sh(["git", "-C", SCRATCH, "checkout", "--", "."])
+        sh(["git", "-C", SCRATCH, "reset", "-q", "--hard"])
     json.dump(results, open(rp, "w"), indent=1, sort_keys=True)
     # restore evidence written during mutation runs: re-run the affected checks on the unchanged tree
     for pid in sorted({results[n]["property"] for n in names if n in results}):
